@@ -2,7 +2,7 @@
 
 Explorer S: stateless, preemption-bounded exploration (CHESS style) of the
 interleavings of real threads at source-line granularity inside
-fastparquet/{api,schema,core,util,writer,dataframe,converted_types}.py.
+fastparquet/{api,schema,core,util,writer,dataframe,converted_types,encoding}.py.
 """
 import itertools
 
@@ -11,49 +11,110 @@ LEVEL = "model_checking"
 FLAVOUR = "plain"
 TIMEOUT = 300
 RULE = ("thread programs = ordered pairs over the operation alphabet {to_pandas(), to_pandas(columns=[a]), "
-        "to_pandas(filters=..), to_pandas(categories=..), pf[0].to_pandas(), pf[0:2].to_pandas(), "
-        "list(iter_row_groups()), head(1), statistics, pickle round trip, dtypes/columns/count} on one shared, "
-        "fresh handle of a 2-row-group, 4-column (int, two categoricals, string) dataset, plus two threads calling "
-        "writer.make_part_file with one shared schema/fmd; all schedules with 0 and 1 preemptions at every source "
-        "line of the traced files (quick: 9 pairs incl. every handle-deriving / memoising operation; thorough: all "
-        "ordered pairs at bound 1, the deriving pairs at bound 2, three threads at bound 1); in addition all "
-        "schedules with 2 preemptions placed at focus points = lines of frames that received the shared object "
-        "(handle, one of its attribute objects, the metadata object) as an argument (quick: the part-file pair; "
-        "thorough: the 9 quick pairs and the part-file pair, the latter also at full bound 2); states = scheduling "
-        "points visited, transitions = executions (each a complete run of the real threads); oracle: every call's "
-        "result equals its sequential result, no call raises, the shared handle still reads correctly afterwards, "
-        "part-file bytes equal the sequential bytes")
+        "to_pandas(filters=..on the int column), to_pandas(filters=..on a categorical text column: statistics decoded "
+        "through the converted type and memoised in the shared metadata; two constants, selecting one / both row "
+        "groups), to_pandas(categories=..), "
+        "to_pandas(filters, row_filter=True), pf[0].to_pandas(), pf[0:2].to_pandas(), list(iter_row_groups()), head(1), "
+        "statistics, pickle round trip, dtypes/columns/count, read_row_group_file(rg 1) called directly, str(pf.schema)} "
+        "on one shared, fresh handle of a 2-row-group, 4-column (int, two categoricals, string) single-file dataset; over "
+        "{pf[0].to_pandas(), to_pandas(), str(pf.schema), dtypes/columns/count} on a handle of a file with a nested schema "
+        "(struct holding a list: the schema tree is flattened); over {to_pandas(), to_pandas(columns=[a]), "
+        "pf[1].to_pandas(), to_pandas(filters=..on the partition column), list(iter_row_groups()), dtypes/columns/count/"
+        "partition values} on a handle of a hive dataset (2 part files, one partition column; module caches emptied "
+        "after the handle is built); plus two threads calling writer.make_part_file with one shared schema/fmd; all "
+        "schedules with 0 and 1 preemptions at every source line of the traced files (quick: 21 pairs: every "
+        "handle-deriving / memoising operation as the preempted thread, filters and dtypes as the preempted thread, a "
+        "memoising operation against itself, the schema text against itself, 3 nested-schema and 3 hive pairs; thorough: all ordered pairs of the first "
+        "11 single-file operations, each further operation before and after {full, categories, pick0, statistics, "
+        "itself}, all ordered pairs of the nested and of the hive operations, three "
+        "threads at bound 1); in addition all schedules with 2 preemptions placed at focus points; focus points of the "
+        "read programs = write points: each operation is run alone under the tracer, a structural fingerprint of the "
+        "shared handle (its attributes by identity and by content: metadata, schema tree, memo fields) is taken at "
+        "every traced line, and the point that follows a line after which the fingerprint changed is a write point of "
+        "that operation (every read pair of the tier); focus points of the part-file program = lines of frames that "
+        "received the shared metadata object as an argument, and its write points (fingerprint of the shared metadata "
+        "object and of the shared list of schema elements) (thorough: full bound 2); states = scheduling points visited, transitions = "
+        "executions (each a complete run of the real threads); oracle: every call's result (values, dtypes, labels, "
+        "column order, index) equals its sequential result, no call raises, afterwards the shared handle still reads "
+        "the same data and its metadata, number of row groups, dtypes, columns, partition values and pickled state "
+        "are those of a fresh handle; part-file bytes and the returned row-group structures equal the sequential "
+        "ones and the shared metadata object is unchanged")
 ASSUMPTIONS = ["scheduling points at source-line granularity (a switch inside one line is not explored)",
-               "GIL semantics; code outside the traced files (pandas, numpy, the C extensions) runs atomically "
-               "between two points", "<= 3 threads, <= 2 preemptions"]
+               "GIL semantics; code outside the traced files (pandas, numpy, the C extensions, json.py, compression.py) "
+               "runs atomically between two points", "<= 3 threads, <= 2 preemptions",
+               "2-preemption schedules of read programs only at write points: a write that leaves the fingerprinted "
+               "handle state (attribute identities, contents of metadata / schema / memo fields) unchanged is not a "
+               "write point; write points are those of the sequential run of each operation"]
 
 FILES = {"api.py", "schema.py", "core.py", "util.py", "writer.py", "dataframe.py", "converted_types.py", "encoding.py"}
 OPS = ["full", "cols_a", "filters", "categories", "pick0", "slice02", "iter", "head1", "statistics", "pickle", "meta"]
-QUICK_PAIRS = [("pick0", "cols_a"), ("cols_a", "pick0"), ("iter", "full"), ("head1", "filters"),
-               ("statistics", "filters"), ("pickle", "slice02"), ("full", "categories"), ("categories", "full"), ("slice02", "meta")]
+MORE_OPS = ["filters_c", "filters_c2", "rrgf", "rowfilter", "schema_text"]
+PARTNERS = ["full", "categories", "pick0", "statistics"]
+NESTED_OPS = ["n:pick0", "n:full", "n:schema_text", "n:meta"]
+HIVE_OPS = ["h:full", "h:cols_a", "h:pick1", "h:pfilt", "h:iter", "h:meta"]
+QUICK_PAIRS = [# a handle being derived (pf[0], iteration, head) while another thread reads, pickles; a read while one is derived
+               ("pick0", "full"), ("cols_a", "pick0"), ("iter", "cols_a"), ("head1", "pickle"),
+               ("statistics", "filters"), ("full", "categories"), ("categories", "full"), ("slice02", "meta"),
+               # readers of the dtypes attribute next to reads that set it / use other categories
+               ("cols_a", "meta"), ("meta", "categories"),
+               # filters as the preempted thread: it selects row group 1 only, the other one both; the statistics of a
+               # text column are decoded and memoised in the shared metadata
+               ("filters_c", "filters_c2"),
+               # a memoising operation against itself; the direct entry point used by dask
+               ("statistics", "statistics"), ("rrgf", "full"),
+               # the two-pass row-level filter as the preempted thread
+               ("rowfilter", "categories"),
+               # nested schema: the tree is flattened after it is built
+               ("n:pick0", "n:schema_text"), ("n:schema_text", "n:pick0"),
+               # the schema text against itself (module-level state of the printer), flat and nested
+               ("schema_text", "schema_text"), ("n:schema_text", "n:schema_text"),
+               # hive dataset: a file opened per row group, partition values, path caches
+               ("h:pfilt", "h:full"), ("h:pick1", "h:pfilt"), ("h:cols_a", "h:pick1")]
 
 
-def explore(run, tier):
-    st = {"states": 0, "transitions": 0, "max_points": 0}
+def kind_of(op):
+    return {"n:": "nested", "h:": "hive"}.get(op[:2], "flat")
+
+
+def programs(tier):
     if tier == "thorough":
         progs = [list(p) for p in itertools.product(OPS, repeat=2)]
-        bound2 = {("pick0", "cols_a"), ("cols_a", "pick0"), ("iter", "full"), ("slice02", "statistics")}
+        for x in MORE_OPS:
+            for p in PARTNERS:
+                progs += [[x, p], [p, x]]
+            progs.append([x, x])
+        progs += [list(p) for p in itertools.product(NESTED_OPS, repeat=2)]
+        progs += [list(p) for p in itertools.product(HIVE_OPS, repeat=2)]
+        # a uniform bound of 2 on read pairs costs ~2 million schedules per pair (measured); two preemptions are
+        # explored at the write points of the operations instead (fbound), and at every point for the part-file pair
+        bound2 = set()
         progs3 = [["pick0", "cols_a", "slice02"], ["iter", "full", "head1"]]
     else:
         progs = [list(p) for p in QUICK_PAIRS]
         bound2 = set()
         progs3 = []
-    # fbound: preemption bound for schedules whose preemptions all lie at focus points (frames that received the
-    # shared handle / metadata object as an argument)
-    focus2 = set(QUICK_PAIRS) if tier == "thorough" else set()
+    return progs, bound2, progs3
+
+
+def explore(run, tier):
+    st = {"states": 0, "transitions": 0, "max_points": 0}
+    progs, bound2, progs3 = programs(tier)
+    # write points of every operation (sequential transient-write detector): the focus points of the read programs
+    ops = sorted({op for pr in progs + progs3 for op in pr}) + ["part_file"]
+    res = run.lattice("write_points", [{"op": op} for op in ops], "run_writes")
+    wl = {op: ((r or {}).get("wl") or []) for op, r in zip(ops, res)}
+    run.extra["write_lines_per_operation"] = {op: len(v) for op, v in wl.items()}
     initial = []
     for pr in progs:
         initial.append({"prog": pr, "sched": [], "bound": 2 if tuple(pr) in bound2 else 1, "expect": None,
-                        "fbound": 2 if tuple(pr) in focus2 else 0, "allfocus": True})
+                        "fbound": 2, "allfocus": True, "wl": [wl[op] for op in pr]})
     for pr in progs3:
-        initial.append({"prog": pr, "sched": [], "bound": 1, "expect": None, "fbound": 0, "allfocus": True})
+        initial.append({"prog": pr, "sched": [], "bound": 1, "expect": None, "fbound": 2, "allfocus": True,
+                        "wl": [wl[op] for op in pr]})
+    # part-file program: fbound = preemption bound for schedules whose preemptions all lie at focus points (frames
+    # that received the shared metadata object / schema as an argument)
     initial.append({"prog": ["part_file", "part_file"], "sched": [], "bound": 2 if tier == "thorough" else 1,
-                    "expect": None, "fbound": 2, "allfocus": True})
+                    "expect": None, "fbound": 2, "allfocus": True, "wl": [wl["part_file"], wl["part_file"]]})
 
     def on_result(point, res, submit):
         if res.get("outcome") in ("crash", "timeout", "harness_error"):
@@ -82,8 +143,11 @@ def explore(run, tier):
                     continue
                 st["focus_schedules"] = st.get("focus_schedules", 0) + en[i] - 1
             for alt in range(1, en[i]):
-                submit({"prog": point["prog"], "sched": point["sched"] + [[i, alt]], "bound": point["bound"],
-                        "expect": [i, dig[i]], "fbound": fb, "allfocus": bool(point.get("allfocus")) and isfoc})
+                child = {"prog": point["prog"], "sched": point["sched"] + [[i, alt]], "bound": point["bound"],
+                         "expect": [i, dig[i]], "fbound": fb, "allfocus": bool(point.get("allfocus")) and isfoc}
+                if "wl" in point:
+                    child["wl"] = point["wl"]
+                submit(child)
     run.dynamic("schedules", initial, "run", on_result)
     run.extra.update({"states": st["states"], "transitions": st["transitions"],
                       "traces_validated_against_impl": st["transitions"],
@@ -93,61 +157,126 @@ def explore(run, tier):
 
 
 def crash_sig(point, res):
+    if "op" in point:
+        return {"prog": point["op"], "symptom": res["outcome"], "space": "write_points"}
     return {"prog": "+".join(point["prog"]), "symptom": res["outcome"]}
 
 
 # ------------------------------------------------------------------------------------
 _STATE = {}
 
+# /repo test-data/nested.parq (593 bytes, parquet-mr): spark_schema { nest: struct { thing: list<string> } }, 10 rows in
+# one row group.  fastparquet cannot write a struct, and the spec-level writer has no struct either.
+NESTED_B64 = (
+    "UEFSMRUEFR4VIkwVBBUEAAAPOAIAAABoaQUAAAB3b3JsZBUAFSYVKiwVKBUEFQYVBhwYBXdvcmxkGAJoaRYAAAAAE0gEAAAAB6qq"
+    "CgIAAAAoBAEHqqoKFQIZXEgMc3Bhcmtfc2NoZW1hFQIANQIYBG5lc3QVAgA1AhgFdGhpbmcVAhUGADUEGARsaXN0FQIAFQwlAhgH"
+    "ZWxlbWVudCUAABYUGRwZHCYIHBUMGSUEBhlIBG5lc3QFdGhpbmcEbGlzdAdlbGVtZW50FQIWKBaeARamASYIPBgFd29ybGQYAmhp"
+    "FgAAAAAWngEWFAAZHBgpb3JnLmFwYWNoZS5zcGFyay5zcWwucGFycXVldC5yb3cubWV0YWRhdGEY4AF7InR5cGUiOiJzdHJ1Y3Qi"
+    "LCJmaWVsZHMiOlt7Im5hbWUiOiJuZXN0IiwidHlwZSI6eyJ0eXBlIjoic3RydWN0IiwiZmllbGRzIjpbeyJuYW1lIjoidGhpbmci"
+    "LCJ0eXBlIjp7InR5cGUiOiJhcnJheSIsImVsZW1lbnRUeXBlIjoic3RyaW5nIiwiY29udGFpbnNOdWxsIjp0cnVlfSwibnVsbGFi"
+    "bGUiOnRydWUsIm1ldGFkYXRhIjp7fX1dfSwibnVsbGFibGUiOnRydWUsIm1ldGFkYXRhIjp7fX1dfQAYSXBhcnF1ZXQtbXIgdmVy"
+    "c2lvbiAxLjguMSAoYnVpbGQgNGFiYTRkYWU3YmIwZDRlZGJjZjc5MjNhZTEzMzlmMjhmZDNmN2ZjZikA8gEAAFBBUjE="
+)
 
-def dataset():
+
+def dataset(kind="flat"):
     """created once per worker process"""
+    import base64
     import os
     import pandas as pd
     import fastparquet
     from mc.scratch import scratch
-    if "path" not in _STATE:
-        d = scratch("c20-%d" % os.getpid())
-        df = pd.DataFrame({"a": pd.Series(range(6), dtype="int64"),
-                           "c": pd.Categorical(["x", "y", "x", "z", "y", "x"]),
-                           # a second categorical column: to_pandas(categories=["c"]) reads it as plain text, so the
-                           # categories option of one call changes what another call would see if state leaked
-                           "c2": pd.Categorical(["k", "k", "l", "m", "l", "k"]),
-                           "s": pd.Series(["s0", None, "s2", "s3", "s4", None], dtype=object)})
-        path = os.path.join(d, "t.parquet")
-        fastparquet.write(path, df, row_group_offsets=[0, 3], write_index=False, stats=True)
-        _STATE["path"] = path
-        _STATE["df"] = df
-    return _STATE["path"]
+    if "dir" not in _STATE:
+        _STATE["dir"] = scratch("c20-%d" % os.getpid())
+        _STATE["df"] = pd.DataFrame({"a": pd.Series(range(6), dtype="int64"),
+                                     "c": pd.Categorical(["x", "y", "x", "z", "y", "x"]),
+                                     # a second categorical column: to_pandas(categories=["c"]) reads it as plain text, so the
+                                     # categories option of one call changes what another call would see if state leaked
+                                     "c2": pd.Categorical(["k", "k", "l", "m", "l", "k"]),
+                                     "s": pd.Series(["s0", None, "s2", "s3", "s4", None], dtype=object)})
+    key = ("path", kind)
+    if key not in _STATE:
+        d = _STATE["dir"]
+        df = _STATE["df"]
+        if kind == "flat":
+            path = os.path.join(d, "t.parquet")
+            fastparquet.write(path, df, row_group_offsets=[0, 3], write_index=False, stats=True)
+        elif kind == "nested":
+            path = os.path.join(d, "nested.parq")
+            with open(path, "wb") as f:
+                f.write(base64.b64decode(NESTED_B64))
+        elif kind == "hive":
+            path = os.path.join(d, "hive")
+            h = df[["a", "c"]].copy()
+            h["p"] = ["u", "u", "u", "v", "v", "v"]
+            fastparquet.write(path, h, file_scheme="hive", partition_on=["p"], write_index=False, stats=True)
+        else:
+            raise KeyError(kind)
+        _STATE[key] = path
+    return _STATE[key]
+
+
+def open_handle(kind):
+    """a fresh handle; cold module caches (for the hive dataset also after the handle is built: emptying a pure
+    cache must never change a result, and the check-then-fill of the path caches then happens inside the threads)"""
+    import fastparquet
+    path = dataset(kind)
+    reset_caches()
+    pf = fastparquet.ParquetFile(path)
+    if kind == "hive":
+        reset_caches()
+    return pf
 
 
 def canon_df(df):
     from mc import oracles as O
     # values and the column's dtype (a categorical also by its labels): an option leaking from one call into
-    # another changes the dtype, not the values
+    # another changes the dtype, not the values; also the order of the columns and the row index
     out = {}
     for c in df.columns:
         dt = df[c].array.dtype
         labels = [O.canon_cell(x) for x in dt.categories.tolist()] if hasattr(dt, "categories") else None
         out[str(c)] = (repr(O.dtype_kind(dt)), labels, O.series_to_list(df[c]))
+    out["<column order>"] = [str(c) for c in df.columns]
+    try:
+        out["<index>"] = (list(df.index.names), [O.canon_cell(x) for x in df.index.tolist()])
+    except Exception:
+        out["<index>"] = repr(df.index)
     return out
+
+
+def _meta(pf):
+    return (list(pf.columns), {k: str(v) for k, v in pf.dtypes.items()}, pf.count(), pf.info["rows"],
+            {k: [str(x) for x in v] for k, v in pf.cats.items()})
 
 
 def op_body(op, pf):
     import pickle
-    if op == "full":
+    if op in ("full", "n:full", "h:full"):
         return lambda: canon_df(pf.to_pandas())
-    if op == "cols_a":
+    if op in ("cols_a", "h:cols_a"):
         return lambda: canon_df(pf.to_pandas(columns=["a"]))
     if op == "filters":
         return lambda: canon_df(pf.to_pandas(filters=[("a", ">", 2)]))
+    if op == "filters_c":
+        # row-group statistics of a text column: decoded, converted (UTF8) and memoised in the statistics structure
+        return lambda: canon_df(pf.to_pandas(filters=[("c", ">", "y")]))     # row group 1 only
+    if op == "filters_c2":
+        # both row groups; both cached bounds are used
+        return lambda: canon_df(pf.to_pandas(filters=[("c", ">=", "y"), ("c", "<=", "z")]))
+    if op == "rowfilter":
+        return lambda: canon_df(pf.to_pandas(filters=[("a", ">", 3)], row_filter=True))
     if op == "categories":
         return lambda: canon_df(pf.to_pandas(categories=["c"]))
-    if op == "pick0":
+    if op in ("pick0", "n:pick0"):
         return lambda: canon_df(pf[0].to_pandas())
+    if op == "h:pick1":
+        return lambda: canon_df(pf[1].to_pandas())
+    if op == "h:pfilt":
+        return lambda: canon_df(pf.to_pandas(filters=[("p", "==", "v")]))
     if op == "slice02":
         return lambda: canon_df(pf[0:2].to_pandas())
-    if op == "iter":
+    if op in ("iter", "h:iter"):
         return lambda: [canon_df(x) for x in pf.iter_row_groups()]
     if op == "head1":
         return lambda: canon_df(pf.head(1))
@@ -157,6 +286,13 @@ def op_body(op, pf):
         return lambda: canon_df(pickle.loads(pickle.dumps(pf)).to_pandas())
     if op == "meta":
         return lambda: (list(pf.columns), {k: str(v) for k, v in pf.dtypes.items()}, pf.count(), pf.info["rows"])
+    if op in ("n:meta", "h:meta"):
+        return lambda: _meta(pf)
+    if op == "rrgf":
+        # the entry point dask uses: one row group, output allocated by the call
+        return lambda: canon_df(pf.read_row_group_file(pf.row_groups[1], ["a", "c", "s"], None))
+    if op in ("schema_text", "n:schema_text"):
+        return lambda: str(pf.schema)
     raise KeyError(op)
 
 
@@ -174,11 +310,9 @@ def reset_caches():
 
 
 def sequential(op):
-    import fastparquet
     key = ("seq", op)
     if key not in _STATE:
-        reset_caches()
-        pf = fastparquet.ParquetFile(dataset())
+        pf = open_handle(kind_of(op))
         _STATE[key] = op_body(op, pf)()
     return _STATE[key]
 
@@ -186,7 +320,6 @@ def sequential(op):
 def part_file_bodies():
     """two threads writing independent part files with one shared schema / fmd"""
     import io
-    import pandas as pd
     from fastparquet import writer
 
     class Mem(io.BytesIO):
@@ -196,50 +329,139 @@ def part_file_bodies():
 
         def __exit__(self, *a):
             self.close()
+    dataset()
     df = _STATE["df"]
     fmd = writer.make_metadata(df, has_nulls=True, object_encoding="infer")
+    schema = fmd.schema       # one list of schema elements for both threads
     outs = [Mem(), Mem()]
     parts = [df.iloc[:3], df.iloc[3:]]
 
     def body(i):
         def f():
-            writer.make_part_file(outs[i], parts[i], fmd.schema, fmd=fmd)
-            return outs[i].final
+            rg = writer.make_part_file(outs[i], parts[i], schema, fmd=fmd)
+            # the bytes of the file and the row group the call hands back (dask collects these into _metadata)
+            return outs[i].final, _struct("RowGroup", rg)
         return f
-    return [body(0), body(1)], fmd
+    return [body(0), body(1)], fmd, schema
+
+
+def _struct(name, obj):
+    """a thrift object as a plain structure (field order of the serialisation is not compared)"""
+    from mc.specpq.thrift import codec
+    return codec().decode(name, bytes(obj.to_bytes()), tolerate=("empty_list_type0",))[0]
 
 
 def _fmd_struct(fmd):
-    """the shared metadata object as a plain structure (field order of the serialisation is not compared)"""
-    from mc.specpq.thrift import codec
-    return codec().decode("FileMetaData", fmd.to_bytes(), tolerate=("empty_list_type0",))[0]
+    return _struct("FileMetaData", fmd)
+
+
+def handle_state(pf):
+    """what a fresh handle answers about itself without reading data; compared after every run"""
+    st = pf.__getstate__()
+    return {"metadata": _fmd_struct(pf.fmd), "len": len(pf), "row_groups": len(pf.row_groups),
+            "dtypes": [(k, str(v)) for k, v in pf.dtypes.items()], "columns": list(pf.columns),
+            "partition_values": {k: [str(x) for x in v] for k, v in pf.cats.items()}, "file_scheme": pf.file_scheme,
+            "pickled_state": {k: repr(v) for k, v in sorted(st.items()) if k not in ("fmd", "open")}}
+
+
+def fresh_state(kind):
+    key = ("state", kind)
+    if key not in _STATE:
+        _STATE[key] = handle_state(open_handle(kind))
+    return _STATE[key]
+
+
+def handle_fingerprint(pf, *more):
+    """structural fingerprint of everything reachable from the handle's attributes: identities of the attribute
+    values (a rebinding is a write) and contents of metadata, schema tree, memo dicts (a mutation in place is one);
+    for the part-file program: of the shared metadata object and the shared list of schema elements"""
+    import numpy as np
+    seen = {}
+
+    def walk(o, depth):
+        if o is None or isinstance(o, (bool, int, float, str, bytes)):
+            return o
+        if isinstance(o, np.ndarray):
+            return ("a", o.dtype.str, o.shape, o.tobytes() if o.size <= 64 and o.dtype.kind != "O" else repr(o.tolist())[:200])
+        if isinstance(o, (np.generic, np.dtype)):
+            return ("s", repr(o))
+        inner = o
+        tag = type(o).__name__
+        if hasattr(o, "thrift_name") and hasattr(o, "contents"):
+            inner = o.contents          # wrappers are made per access; the dict underneath is the object
+            tag = "T:" + o.thrift_name
+        key = id(inner)
+        if key in seen:
+            return ("ref", seen[key])
+        if depth > 14:
+            return ("deep", tag)
+        if isinstance(inner, dict):
+            seen[key] = len(seen)
+            return (tag, tuple((k if isinstance(k, (str, int, bytes)) else repr(k), walk(v, depth + 1))
+                               for k, v in inner.items()))
+        if isinstance(inner, (list, tuple)):
+            seen[key] = len(seen)
+            return (tag, tuple(walk(v, depth + 1) for v in inner))
+        if isinstance(inner, (set, frozenset)):
+            return (tag, tuple(sorted(repr(v) for v in inner)))
+        if type(o).__module__.startswith("fastparquet") and hasattr(o, "__dict__"):
+            seen[key] = len(seen)
+            return (tag, tuple((k, walk(v, depth + 1)) for k, v in vars(o).items()))
+        if type(o).__module__.startswith(("pandas", "datetime")) and not hasattr(o, "__len__"):
+            return (tag, repr(o))
+        return ("opaque", tag)
+    shallow = tuple((k, id(v)) for k, v in vars(pf).items()) if hasattr(pf, "__dict__") else ()
+    return hash((shallow, walk(pf, 0), tuple(walk(o, 0) for o in more)))
+
+
+def run_writes(point):
+    """sequential transient-write detector: the write points of one operation (see mc.sched.write_points)"""
+    from mc.sched import write_points
+    op = point["op"]
+    if op == "part_file":
+        reset_caches()
+        bodies, fmd, schema = part_file_bodies()
+        wl, n, w, err = write_points(lambda: [b() for b in bodies], FILES, lambda: handle_fingerprint(fmd, schema))
+    else:
+        pf = open_handle(kind_of(op))
+        wl, n, w, err = write_points(op_body(op, pf), FILES, lambda: handle_fingerprint(pf))
+    if err is not None:
+        return {"ok": False, "outcome": "call_raised", "nontrivial": True,
+                "sig": {"prog": op, "symptom": "call_raised", "space": "write_points", "exc": type(err).__name__},
+                "detail": "operation %s alone raised %s: %s" % (op, type(err).__name__, str(err)[:200])}
+    return {"ok": True, "outcome": "write_points", "nontrivial": True, "wl": wl,
+            "counts": {"line_events_fingerprinted": n, "writes_seen": w, "write_lines": len(wl)}}
 
 
 def run(point):
-    import fastparquet
     from mc.sched import Execution, prefix_digests
     prog = point["prog"]
     sched = {int(i): int(a) for i, a in point["sched"]}
-    path = dataset()
-    reset_caches()
     if prog[0] == "part_file":
         key = ("seq", "part_file")
         if key not in _STATE:
-            bodies, _ = part_file_bodies()
+            reset_caches()
+            bodies, _, _ = part_file_bodies()
             _STATE[key] = [b() for b in bodies]
-        bodies, fmd = part_file_bodies()
+        reset_caches()
+        bodies, fmd, schema = part_file_bodies()
         expected = _STATE[key]
         pf = None
+        # frames that received the shared metadata object; receiving the schema list or one of its elements would
+        # make 80 resp. 742 focus points per thread (6 400 / 550 000 schedules): the write points cover them instead
         shared = [fmd]
         fmd_before = _fmd_struct(fmd)
+        wlines = point.get("wl") if point.get("fbound") else None
     else:
+        kind = kind_of(prog[0])
         expected = [sequential(op) for op in prog]
-        reset_caches()
-        pf = fastparquet.ParquetFile(path)
+        state_before = fresh_state(kind)
+        pf = open_handle(kind)
         bodies = [op_body(op, pf) for op in prog]
-        shared = [pf] + [v for v in vars(pf).values() if not isinstance(v, (str, bytes, int, float, bool, type(None)))]
+        shared = ()
+        wlines = point.get("wl") if point.get("fbound") else None
     ex = Execution(bodies, sched, FILES, expect=tuple(point["expect"]) if point.get("expect") else None,
-                   shared=shared if point.get("fbound") else ()).run()
+                   shared=shared if point.get("fbound") else (), write_lines=wlines).run()
     npts = len(ex.enabled_n)
     out = {"enabled_n": ex.enabled_n, "cost": ex.preempt_cost, "digests": prefix_digests(ex.trace), "focus": ex.focus,
            "counts": {"points": npts}, "nontrivial": len(sched) > 0 or npts > 0}
@@ -276,6 +498,9 @@ def run(point):
             out.update({"ok": False, "outcome": "harness_error", "detail": "thread diverged"})
             return out
         if res[1] != exp:
+            if pf is None and res[1][0] == exp[0]:
+                return bad("wrong_result", "thread %d: make_part_file wrote the sequential bytes but returned another "
+                           "row-group structure" % t, thread_op=prog[t], what="returned_row_group")
             return bad("wrong_result", "thread %d (%s) returned a result different from its sequential result" % (t, prog[t]),
                        thread_op=prog[t])
     if pf is None:
@@ -290,16 +515,27 @@ def run(point):
             after = canon_df(pf.to_pandas())
         except Exception as e:
             return bad("handle_disturbed", "after the run the shared handle raises %s: %s" % (type(e).__name__, e))
-        if after != sequential("full"):
+        if after != sequential({"flat": "full", "nested": "n:full", "hive": "h:full"}[kind]):
             return bad("handle_disturbed", "after the run the shared handle reads different data")
+        try:
+            state_after = handle_state(pf)
+        except Exception as e:
+            return bad("handle_disturbed", "after the run the shared handle cannot describe itself: %s: %s" % (
+                type(e).__name__, e), what="state")
+        for k, v in state_before.items():
+            if state_after.get(k) != v:
+                return bad("handle_disturbed", "after the run the shared handle's %s differ(s) from a fresh handle's: "
+                           "%.150r instead of %.150r" % (k, state_after.get(k), v), what=k)
     out.update({"ok": True, "outcome": "same_as_sequential"})
     return out
 
 
 LEVEL_TEXT = ("Stateless model checking of the real threads with iterative context bounding: every schedule with at most "
-              "one preemption (two for the handle-deriving pairs and three-thread programs in the thorough tier) at every "
+              "one preemption (two, at every point, for the part-file pair in the thorough tier) at every "
               "source line of the library's Python files is executed on a fresh handle under a cooperative scheduler "
-              "that owns every switch; each replay validates the recorded trace prefix (divergence is a harness error, "
+              "that owns every switch; schedules with two preemptions are added where both lie at write points of the "
+              "preempted operations (found by a sequential detector that fingerprints the shared handle at every "
+              "traced line); each replay validates the recorded trace prefix (divergence is a harness error, "
               "not a verdict); results are compared with the sequential results.")
 LEVEL_NOTE = ("Trusted: sys.settrace line events as the set of scheduling points; CPython GIL semantics; code outside the "
               "traced files is atomic between points. A free-running stress pass is not part of the verdict.")
